@@ -385,7 +385,22 @@ func TryReplay(e *Engine, r Result, dir, name, scratch string) (string, bool) {
 	reproduced := false
 	var blocked []string // earlier candidate inputs that did not reproduce: excluded from the next model
 	overall := time.Now().Add(100 * time.Second)
-	for attempt := 0; attempt < 4 && !reproduced && time.Now().Before(overall); attempt++ {
+	// a string input often reaches the refuted clause only through library calls whose results are arbitrary in the
+	// model (ToLower, TrimSpace, ...): besides the model's own value of the parameter, the model values of those results
+	// are tried as the parameter (they are fixed points of such normalising calls more often than not)
+	nAlt := 0
+	if r.O.Kind == "ensures" {
+		for _, p := range fn.Params {
+			if isString(p.Type()) {
+				nAlt = len(u.externStrs)
+				break
+			}
+		}
+		if nAlt > 3 {
+			nAlt = 3
+		}
+	}
+	for attempt := 0; attempt < 4+nAlt && !reproduced && time.Now().Before(overall); attempt++ {
 	var lastFixed []string
 	func() {
 		defer func() {
@@ -422,8 +437,14 @@ func TryReplay(e *Engine, r Result, dir, name, scratch string) (string, bool) {
 			return p.Name()
 		}
 		var args []string
+		altDone := false
 		for i, p := range fn.Params {
-			cv := cz.build(u.params[i], p.Type(), 0)
+			pv := u.params[i]
+			if attempt >= 1 && attempt <= nAlt && !altDone && isString(p.Type()) {
+				pv = u.externStrs[attempt-1]
+				altDone = true
+			}
+			cv := cz.build(pv, p.Type(), 0)
 			if cv.kind == "toolarge" {
 				panic("too large")
 			}
